@@ -40,7 +40,8 @@ Record inv := mkInv {
   i_out : outsel;
   i_force : bool;            (* -f *)
   i_rmk : list bool;         (* the --rm (true) and -k / --keep (false) flags, in command-line order *)
-  i_confirm : bool;          (* interactive run (display level > 1) whose user answers y to every prompt *)
+  i_answer : option N;       (* None: no interaction possible (display level <= 1). Some b: interactive run whose user
+                                types an answer starting with byte b at every prompt (b >= 256 stands for end of input) *)
   i_rec : bool;              (* -r *)
   i_excl : bool;             (* --exclude-compressed *)
   i_dict : option path;      (* -D file *)
@@ -238,7 +239,17 @@ Definition writes (d : dsel) (chunks : list data) : list op :=
   | DOwn p => map (OWrite p) chunks
   end.
 
-Definition ovw (i : inv) : bool := i_force i || i_confirm i.
+(* UTIL_requireUserConfirmation(prompt, abort, "yY", hasStdinInput) as repaired in f7ae77e: ch = getchar();
+   refused when ch == EOF || ch == 0 || strchr("yY", ch) == NULL.  (Before the repair strchr() found the
+   terminating NUL of "yY": an answer starting with byte 0 was a yes.) *)
+Definition yes_byte (b : N) : bool := (b =? 121) || (b =? 89).        (* 'y' 'Y' *)
+Definition confirm (i : inv) : bool :=
+  match i_answer i with
+  | Some b => yes_byte b
+  | None => false
+  end.
+
+Definition ovw (i : inv) : bool := i_force i || confirm i.
 
 Definition dict_of (i : inv) : option path :=
   match i_patch i with
@@ -416,9 +427,26 @@ Definition out_stdout (i : inv) (names : list path) : bool :=
 (* the last of --rm / --keep wins *)
 Definition last_flag (l : list bool) : bool := match rev l with b :: _ => b | [] => false end.
 
-(* zstdcli.c: removeSrcFile is cleared in test mode and when the output is stdout *)
+(* FIO_checkFilenameCollisions (fileio.c, as repaired in 175caff): with --output-dir-flat, two names whose parts after
+   the last '/' are equal end up under one destination name *)
+Fixpoint has_dup (l : list path) : bool :=
+  match l with
+  | [] => false
+  | x :: tl => existsb (path_eqb x) tl || has_dup tl
+  end.
+
+Definition flat_collision (i : inv) (names : list path) : bool :=
+  match eff_out i names with
+  | OutDir _ => has_dup (map basename names)
+  | _ => false
+  end.
+
+(* prefs->removeSrcFile while the sources are processed.
+   zstdcli.c: cleared in test mode and when the output is stdout;
+   FIO_keepSourcesOnCollision (175caff, called by FIO_*MultipleFilenames before the first source is opened):
+   cleared when two sources share one name in the flat output directory *)
 Definition eff_rm (i : inv) (names : list path) : bool :=
-  last_flag (i_rmk i) && negb (is_test i) && negb (out_stdout i names).
+  last_flag (i_rmk i) && negb (is_test i) && negb (out_stdout i names) && negb (flat_collision i names).
 
 Definition dstname (i : inv) (od : option path) (src : path) : option path :=
   match i_mode i with
